@@ -59,6 +59,11 @@ mod types;
 
 #[cfg(rscel_verif)]
 pub mod verif;
+#[cfg(rscel_verif)]
+pub use compiler::{
+    tokenizer::TokenWithLoc,
+    tokens::{FStringSegment, Token},
+};
 
 // Export some public interface
 pub mod utils;
